@@ -39,6 +39,10 @@ Proof. vm_compute. reflexivity. Qed.
 Lemma ob_connect_header_cloned : connect_header_cloned_unconditionally = true.
 Proof. vm_compute. reflexivity. Qed.
 
+(* dialvia: the CONNECT sent to an upstream proxy carries the client's header AND the callback's result *)
+Lemma ob_connect_header_merged : connect_header_merges_client_and_callback = true.
+Proof. vm_compute. reflexivity. Qed.
+
 (* ---------- consequences ---------- *)
 Lemma via_modify_fixed : via_modify = via_modify_gen true.
 Proof. unfold via_modify. rewrite ob_via_reads_all_lines. reflexivity. Qed.
